@@ -633,6 +633,14 @@ def evaluate(ctx, r, out, cqm, ref, st):
         fail('SampleSet.from_samples_cqm', 'raises', f'{type(e).__name__}: {e}', f'SampleSet.from_samples_cqm({slsrc}, cqm{tolkw})\n')
         return False
     if labs:
+        # correspondence of the gather step: energies of the objective and of every lhs for the LAST row of the labelled array as
+        # given (its column order, its superfluous columns) against the Lean model of `_energies` (`feasw`)
+        one = (np.ascontiguousarray(mat[-1:, :]), cols)
+        try:
+            wexp = 'W ' + rat(cqm.objective.energy(one)) + '|' + ','.join(rat(cqm.constraints[l].lhs.energy(one)) for l in clabels) + '|0'
+            extra_out.append(dict(lines=['feasw ' + ','.join(lab(c_) for c_ in cols) + ' ' + ','.join(rat(a) for a in mat[-1].tolist())], expect=wexp, src=list(src), rows=[rows[-1]]))
+        except Exception:  # noqa  (the vectorised comparison below reports what is wrong)
+            pass
         ran.append(f'cqm.violations({ {v: rows[0][i] for v, i in zip(sorder, spos)} !r}); cqm.check_feasible({ {v: rows[0][i] for v, i in zip(sorder, spos)} !r})')
     ran.append(f'SampleSet.from_samples_cqm({slsrc}, cqm)')
     vec = ','.join(''.join(str(int(b)) for b in row) for row in sat_m) + '|' + ''.join(str(int(b)) for b in fe_v) + '|' + ','.join(rat(e) for e in en_v)
